@@ -450,6 +450,58 @@ def r_chunk(sig, body, chunks, where):
     return new_body, helpers, log
 
 
+
+def r_enumerate(body):
+    """for (I, PAT) in E.enumerate() { B }  ->  { let mut enum_idx_: usize = 0; for PAT in E { let I = enum_idx_; B enum_idx_ = enum_idx_ + 1; } }
+    (definition of Iterator::enumerate for a loop body without `continue`; R-enumerate)"""
+    log = []
+    while True:
+        m = code_mask(body)
+        mo = None
+        for x in re.finditer(r"\bfor\s*\(\s*(\w+)\s*,\s*", body):
+            if m[x.start()]:
+                # find ' in ' ... '.enumerate()' before the body brace
+                mo = x
+                break
+        if mo is None:
+            return body, log
+        # pattern end: matching paren of the tuple pattern
+        p_open = body.index("(", mo.start())
+        p_close = match_close(body, m, p_open)
+        inner_pat = body[mo.end():p_close].strip()
+        rest = body[p_close + 1:]
+        im = re.match(r"\s*in\s+", rest)
+        if not im:
+            raise Unsupported("R-enumerate: loop header not recognised")
+        e_start = p_close + 1 + im.end()
+        # body brace: first '{' at depth 0
+        d = 0
+        k = e_start
+        while True:
+            if m[k]:
+                ch = body[k]
+                if ch in "([":
+                    d += 1
+                elif ch in ")]":
+                    d -= 1
+                elif ch == "{" and d == 0:
+                    break
+            k += 1
+        expr = body[e_start:k].strip()
+        if not re.sub(r"\s+", "", expr).endswith(".enumerate()"):
+            # not an enumerate loop: leave (mask it by replacing 'for (' temporarily is overkill) -> stop
+            return body, log
+        base = expr[:expr.rfind(".enumerate")].rstrip()
+        b_close = match_close(body, m, k)
+        lbody = body[k + 1:b_close]
+        if re.search(r"\bcontinue\b", lbody):
+            raise Unsupported("R-enumerate: loop body contains `continue`")
+        idx = mo.group(1)
+        new = "{ let mut enum_idx_: usize = 0; for %s in %s { let %s = enum_idx_; %s enum_idx_ = enum_idx_ + 1; } }" % (inner_pat, base, idx, lbody)
+        log.append(("R-enumerate", norm_ws(body[mo.start():k])[:160], norm_ws(new)[:120] + " ..."))
+        body = body[:mo.start()] + new + body[b_close + 1:]
+
+
 def r_tryfold(body):
     """RECV.try_fold(INIT, |ACC, PAT| BODY)  ->  { let mut ACC = INIT; for PAT in RECV { ACC = (BODY)?; } ACC_OK }
     where the whole expression is in tail / `?` position; emitted as a block evaluating to Result: Ok(ACC).
@@ -818,6 +870,9 @@ def emit_fn(f, udir, unit_props, recs, log_global):
             rec.helper_impl = f.get("chunk_impl", "")
         if "optmap" in rewrites or ("resmap" not in rewrites and "no-optmap" not in rewrites):
             body, l = r_optmap(body)
+            log += l
+        if "enumerate" in rewrites:
+            body, l = r_enumerate(body)
             log += l
         if "matchcount" in rewrites:
             body, l = r_matchcount(body)
